@@ -295,11 +295,30 @@ def _safe(s):
     return re.sub(r'[^A-Za-z0-9_.\-]+', '_', s)[:150] + '-' + h
 
 
+_WITNESS_CACHE = {}
+
+
+def _witness_still_fails(k):
+    """the stored witness of a known finding must still fail natively on this tree (exit 1)"""
+    w = k.get('witness')
+    if not w:
+        return True
+    if w not in _WITNESS_CACHE:
+        import subprocess
+        try:
+            p = subprocess.run(['/venv/bin/python', os.path.join(VERIF, w)], capture_output=True, text=True, timeout=120,
+                               env={**os.environ, 'PYTHONPATH': REPO})
+            _WITNESS_CACHE[w] = (p.returncode == 1)
+        except Exception:  # noqa
+            _WITNESS_CACHE[w] = False
+    return _WITNESS_CACHE[w]
+
+
 def _match_known(o, known):
     for k in known:
         if k.get('status', 'open') != 'open':
             continue
-        if fnmatch.fnmatchcase(o['name'], k['obligation']):
+        if fnmatch.fnmatchcase(o['name'], k['obligation']) and _witness_still_fails(k):
             return k
     return None
 
